@@ -835,6 +835,40 @@ def check_count_columns(ctx):
                 elif isinstance(v, ast.Constant):
                     m[k.value] = v.value
             ok = ok or (m.get(1, 0) > 0 and m.get(0, 0) < 0)
+    # the same table written arithmetically: sign = 2 * column - 1
+    recalc = ctx.db.fn(SEL + 'recalculate_utility_array_batch')
+    for (n, c) in _calls_to(ctx, fi, cfg, rd, recalc):
+        mapping, _ = bind_args(recalc, c)
+        a = mapping.get('sign_batch')
+        if a is not None and not ok:
+            t = ex.expand(a, n.id)
+            cols = [x for x in T.subterms(t) if x[0] == 'sub'
+                    and x[2] == ('const', '1')
+                    and _cname(x[1]) == 'where']
+            if cols:
+                col = cols[0]
+                try:
+                    pt = P.poly(t, lambda x: P.atom('COL')
+                                if x == col else None)
+                    ok = pt == P._add(P._mul(P.const(2), P.atom('COL')),
+                                      P.const(1), -1)
+                except P.NotPolynomial:
+                    pass
+        # the pairs whose utility is withdrawn are named by their index in
+        # the table, taxonomy_idx_array[row], not by the row number
+        b = mapping.get('pair_batch')
+        if b is not None:
+            tb = ex.expand(b, n.id)
+            okp = _has(tb, lambda x: x[0] == 'sub' and x[1] == (
+                'param', 'taxonomy_idx_array'))
+            ctx.ob(rule, '_update_been_filled:pair-index', fi.loc(c), okp,
+                   'filled slots are reported by the pair\'s index in the '
+                   'marker table' if okp else
+                   f'the pairs handed to recalculate_utility_array_batch '
+                   f'are {fmt_term(tb)[:70]}: row numbers among the '
+                   'parent\'s pairs, not indices of the marker table; on '
+                   'a table that holds more than the parent\'s pairs the '
+                   'utility of the wrong pairs\' markers is withdrawn')
     ctx.ob(rule, '_update_been_filled:sign-of-column', fi.loc(), ok,
            'column 1 is handed on as +1 (up), column 0 as -1 (down)'
            if ok else
